@@ -134,7 +134,9 @@ func (r *run) pickNext(me *thread, what string) *thread {
 			k = r.chooseN(len(cands), "schedule")
 		}
 		next = cands[k]
-		if !r.eng.NoSleepSets {
+		// opts sleepsets=off: the reduction judges independence by synchronisation objects only; it is unsound for code
+		// whose goroutines hand plain memory to each other (pooled objects) when that hand-over itself is under test
+		if !r.eng.NoSleepSets && r.eng.Opts["sleepsets"] != "off" {
 			for _, t := range cands[:k] {
 				s.sleep[t] = true
 			}
